@@ -187,13 +187,25 @@ theorem clipInv_feedOpt (cfg : Cfg α β) (S : St σ) (inb : Option (InBuf β)) 
   show S.clipsBy.length = (feedOpt E cfg S.eng inb ilen).length
   simp [feedOpt, h.2]
 
+theorem clipInv_flushAll (S : St σ) (h : ClipInv S) : ClipInv (flushAll E S) := by
+  unfold flushAll
+  split
+  · exact ⟨h.1, by simp [h.2]⟩
+  · exact h
+
+theorem flushAll_len (S : St σ) : (flushAll E S).eng.length = S.eng.length := by
+  unfold flushAll
+  split
+  · simp
+  · rfl
+
 theorem clipInv_process (cfg : Cfg α β) (S : St σ) (inb : Option (InBuf β)) (ilen0 : Nat) (fr wi op : Bool) (olen : Nat)
     (rs : List (Nat → FnReply β)) (h : ClipInv S) : ClipInv (process E cfg S inb ilen0 fr wi op olen rs).st := by
   have hfl : ClipInv (procFlush cfg S inb ilen0 fr wi olen) := h
   by_cases hn : op = false ∧ inb.isNone
   · unfold process
     simp only [hn, and_self, if_true]
-    exact hfl
+    exact clipInv_flushAll _ hfl
   · by_cases hE : S.error.isSome = true
     · rw [process_err cfg S inb ilen0 fr wi op olen rs hn hE]; exact hfl
     have hEn : S.error = none := by
@@ -290,7 +302,7 @@ theorem process_len (cfg : Cfg α β) (S : St σ) (inb : Option (InBuf β)) (ile
   by_cases hn : op = false ∧ inb.isNone
   · unfold process
     simp only [hn, and_self, if_true]
-    rfl
+    rw [flushAll_len]; rfl
   · by_cases hE : S.error.isSome = true
     · rw [process_err cfg S inb ilen0 fr wi op olen rs hn hE]; rfl
     have hEn : S.error = none := by
